@@ -125,6 +125,11 @@ impl RSV {
         r matches Some(RSVD::Shifted { offset, .. }) ==> offset <= 256,                           //@ob C12.arith.mul_shifted.shift_inside_slot
         r matches Some(d2) ==> d2 is Shifted,                                                     //@ob C12.arith.mul_shifted.creates_only_shifted
         r is Some ==> *data is Multiply,                                                          //@ob C12.arith.mul_shifted.only_on_multiplication
+        // what is shifted is the (traversed) operand whose folded form is a sub-word, the other operand folding to a constant:
+        // the packed-encoding lift (unit packed_lift) relies on a Shifted wrapping a sub-word
+        r matches Some(RSVD::Shifted { value, .. }) ==> (*data matches RSVD::Multiply { left, right } && (
+            (cfold_data(right.dt()) is SubWord && cfold_data(left.dt()) is KnownData && *value == tx_ims(*right))
+            || (cfold_data(left.dt()) is SubWord && cfold_data(right.dt()) is KnownData && *value == tx_ims(*left)))),   //@ob C12.arith.mul_shifted.shifts_the_sub_word_operand
 //@end
 
 // =========================== sub_word.rs ===========================
@@ -437,7 +442,7 @@ opaque_for($1, $2, &mut self.constant_offsets, &mut values);
 //@dropped RSV::new / SymbolicValue::constant_fold / SymbolicValueData::constant_fold: assumed callees; their no-overflow precondition `child_size() + 1` ("fewer than usize::MAX nodes below", proved under that precondition in unit value_size) is not carried to the call sites in load_slice, decompose_size, get_shift, insert_multiplicative_shifts
 //@dropped SymbolicValue::transform_data applied to the enclosing function (R-SELFREF): assumed callee, uninterpreted; SubWordValue::run / MulShiftedValue::run (one line: hand the nested fn to the traversal) are not extracted
 //@dropped TypeCheckerState::{infer, allocate_ty_var}: assumed callees (HashMap/HashSet bookkeeping, `unsafe fn`); infer's precondition "the variable is known" is discharged for the fresh variable and ASSUMED (trait-level precondition of InferenceRule::infer = the typing state's documented invariant) for the variables of the nodes of the value handed to the rule; TypeExpression::packed_of (itertools map_into) assumed with its exact one-line meaning
-//@dropped lift_packed_encodings (src/tc/lift/packed_encoding.rs) `last_position = offset + size`: NOT under contract — the function is three itertools/closure chains (map/all, map/sorted_by_key/collect, filter/collect) around a `for PackedSpan { .. } in &spans` pattern loop, all outside Verus; the only honest precondition (every span comes from a SubWord node with offset + size <= 256 or a Shifted node with offset <= 256 over a SubWord with size <= 256, hence offset + size <= 512) is a whole-tree invariant that would have to be ASSUMED on an opaque stand-in; its two producer sites are the obligations C12.arith.sub_word.region_inside_slot and C12.arith.mul_shifted.shift_inside_slot of this unit (grep: SubWord / Shifted nodes are constructed nowhere else outside tests and the structural copy in SymbolicValueData::transform)
+//@dropped lift_packed_encodings (src/tc/lift/packed_encoding.rs) is under contract in unit packed_lift (its precondition: sub-words inside the word, shifts <= 256, a Shifted wraps a sub-word, are this unit's postconditions C12.arith.sub_word.region_inside_slot / mul_shifted.shift_inside_slot / mul_shifted.shifts_the_sub_word_operand; that the folded form being a SubWord makes the traversed operand a SubWord rests on the folder and the traversal, both uninterpreted here)
 //@dropped Span::end_bit (`offset + size`), the `ofs + offset` accumulation of abi_type_for_impl (src/tc/mod.rs), MemStoreSize::bits_count, Memory::{store_with_size, load}: not under contract in this unit
 //@dropped which_power_of_2: that the reported k is the base-2 logarithm of the argument is NOT claimed (KnownWord `%`, `/`, `==` are uninterpreted here; DESIGN §5 notes which_power_of_2(10) == Some(3)); only termination, k <= 256 and "0 only for the word 1"
 } // verus!
